@@ -12,11 +12,11 @@ WT=/tmp/seedwt_$id
 rm -rf $WT; git -C /repo worktree prune
 git -C /repo worktree add -q --detach $WT HEAD || exit 3
 cd $WT
-cp -r $S/demo /tmp/seeddemo_$id
-demo=/tmp/seeddemo_$id/demo$n.sh
-# demos refer to their own directory by absolute path /tmp/seed/<prop>_out: keep that working
-mkdir -p /tmp/seed; rm -rf /tmp/seed/${prop}_out; cp -r /tmp/seeddemo_$id /tmp/seed/${prop}_out
-demo=/tmp/seed/${prop}_out/demo$n.sh
+# demos refer to their own directory by the absolute path they were written in; recreate it.
+# seeded/<id>/origin = "<original out dir> <demo number>" (default: /tmp/seed/<prop>_out <n>)
+if [ -f $S/origin ]; then read odir n < $S/origin; else odir=/tmp/seed/${prop}_out; fi
+mkdir -p $(dirname $odir); rm -rf $odir; cp -r $S/demo $odir
+demo=$odir/demo$n.sh
 export CARGO_NET_OFFLINE=true
 r_apply=1; r_tests=""; r_demo_with=""; r_demo_without=""
 if git apply $S/patch.diff; then r_apply=0; fi
@@ -34,4 +34,4 @@ json.dump({"seed":id,"patch_applies":ap=="0","tests_with_change":tests,"demo_exi
           open(f"/verif/seeded/{id}/confirm.json","w"),indent=1)
 print(id, "CONFIRMED" if ok else "NOT-CONFIRMED", ap, tests, w, wo)
 PY
-cd /; git -C /repo worktree remove --force $WT; rm -rf /tmp/seeddemo_$id /tmp/seeddemo_$id.*.log
+cd /; git -C /repo worktree remove --force $WT; rm -rf /tmp/seeddemo_$id.*.log
